@@ -17,10 +17,16 @@ MUTANTS = [
     M("size-test-ge", A, "if member.size > _config.max_memory_size:", "if member.size >= _config.max_memory_size:", "C10-EXACT"),
     M("lzma2-dict-size", S, "dict_size = (2 | (prop_byte & 1)) << (prop_byte // 2 + 11)", "dict_size = 1 << (prop_byte // 2 + 12)", "C10-CODEC"),
     M("coders-forward-order", S, "for coder_id, properties in reversed(folder.coders):", "for coder_id, properties in folder.coders:", "C10-CODEC"),
+    M("empty-member-dropped", A, "        # Check file size before processing\n", "        if not file_data:\n            return\n        # Check file size before processing\n", "C10-STEP"),
+    M("extract-only-when-extension", A, "        for content in extractor(file_bytes, path=full_path):\n            yield content\n", "        if \".\" in basename:\n            for content in extractor(file_bytes, path=full_path):\n                yield content\n", "C10-STEP"),
+    M("uint32-big-endian", S, 'struct.unpack("<I"', 'struct.unpack(">I"', "C10-ENDIAN"),
+    M("empty-stream-consumes-size", S, "            is_dir = empty_streams[i] or (attributes[i] & 0x10) != 0\n", "            is_dir = (attributes[i] & 0x10) != 0\n", "C10-FOLDER"),
 ]
 TWINS = [
     T("dict-size-equivalent-form", S, "dict_size = (2 | (prop_byte & 1)) << (prop_byte // 2 + 11)", "dict_size = (2 + (prop_byte & 1)) * (1 << (prop_byte // 2 + 11))"),
     T("basename-inline", A, "                filename = member.name\n                basename = os.path.basename(filename)\n", "                filename = member.name\n                basename = os.path.basename(filename)\n                logger.debug(\"member %s\", filename)\n"),
+    T("uint8-without-prefix", S, 'struct.unpack("<B"', 'struct.unpack("B"'),
+    T("is-dir-split", S, "            is_dir = empty_streams[i] or (attributes[i] & 0x10) != 0\n", "            has_dir_attr = (attributes[i] & 0x10) != 0\n            is_dir = empty_streams[i] or has_dir_attr\n"),
 ]
 
 # --- seeded changes kept under /verif/seeded (sub-agents saw only the property text); each must be reported by the named rule
@@ -31,5 +37,8 @@ SEEDED = [
     ("C10-1", "C10-EXACT"),
     ("C10-2", "C10-CODEC"),
     ("C10-5", "C10-EXACT"),
+    ("C10-4", "C10-FOLDER"),
+    ("C10-6", "C10-ENDIAN"),
+    ("C10-7", "C10-STEP"),
 ]
 MUTANTS = list(MUTANTS) + [_P("seed-" + sid, _os.path.join(_SEEDS, sid, "patch.diff"), rule) for sid, rule in SEEDED if _os.path.exists(_os.path.join(_SEEDS, sid, "patch.diff"))]
